@@ -24,10 +24,78 @@ def seq_reverse(s):
     return seq_reverse(s[1:]) + s[:1]
 
 
-@spec
+def _sp_le(ip, v, k):
+    from pyvc.builtins_model import int_bytes
+    return int_bytes(ip, v, k, '<')
+
+
+def _sp_be(ip, v, k):
+    from pyvc.builtins_model import int_bytes
+    return int_bytes(ip, v, k, '>')
+
+
+def _sp_le_int(ip, b, k):
+    from pyvc.builtins_model import bytes_int
+    return bytes_int(ip, b, k, '<')
+
+
+def _sp_be_int(ip, b, k):
+    from pyvc.builtins_model import bytes_int
+    return bytes_int(ip, b, k, '>')
+
+
+@spec(special=_sp_le)
 def le(v, k):
-    """k-byte little-endian encoding of 0 <= v < 256**k"""
+    """k-byte little-endian encoding of 0 <= v < 256**k (same abstract function as the struct model)"""
     return v.to_bytes(k, 'little')
+
+
+@spec(special=_sp_be)
+def be(v, k):
+    """k-byte big-endian encoding of 0 <= v < 256**k"""
+    return v.to_bytes(k, 'big')
+
+
+@spec(special=_sp_le_int)
+def le_int(b, k):
+    """unsigned value of the k-byte little-endian string b"""
+    return int.from_bytes(b[:k], 'little')
+
+
+@spec(special=_sp_be_int)
+def be_int_k(b, k):
+    return int.from_bytes(b[:k], 'big')
+
+
+@spec
+def cs_len(b0):
+    """total length of a CompactSize whose first byte is b0"""
+    if b0 < 253:
+        return 1
+    if b0 == 253:
+        return 3
+    if b0 == 254:
+        return 5
+    return 9
+
+
+@spec
+def cs_value(data, pos):
+    """value of the CompactSize starting at data[pos] (any encoding, canonical or not)"""
+    b0 = data[pos]
+    if b0 < 253:
+        return b0
+    if b0 == 253:
+        return le_int(data[pos + 1:pos + 3], 2)
+    if b0 == 254:
+        return le_int(data[pos + 1:pos + 5], 4)
+    return le_int(data[pos + 1:pos + 9], 8)
+
+
+@spec
+def cs_ok(data, pos):
+    """a complete CompactSize starts at data[pos]"""
+    return pos < len(data) and pos + cs_len(data[pos]) <= len(data)
 
 
 @spec
